@@ -98,7 +98,7 @@ def check(case: Dict[str, Any]) -> CaseInfo:
 
 @st.composite
 def c12_case(draw):
-    o = Opts(fractional_stamps=True, early_kernels=True, steps=[0, 1, 2, 2, 3, 3, 4], max_top=3, w_launch=6, w_sync=2, second_thread=True, lead_op=True, cuda_events=True)
+    o = Opts(fractional_stamps=True, unrounded=True, early_kernels=True, steps=[0, 1, 2, 2, 3, 3, 4], max_top=3, w_launch=6, w_sync=2, second_thread=True, lead_op=True, cuda_events=True)
     case = draw(sim_case(o, max_ranks=2))
     case["include_last"] = draw(st.sampled_from([True, False]))
     return case
